@@ -75,7 +75,8 @@ def run(ctx, rep):
         # one element pushed per split part, bytes of the part verbatim
         # (the stored length may be written as the constant the refusal pins it to: compared under the refusals met)
         gfacts = tuple(x['cond'] for x in I.guards if x['kind'] in ('assert', 'copy_from_slice-len', 'unwrap', 'expect'))
-        es_ = body_[0][1].segs if len(body_) == 1 and body_[0][0] == 'elem' and isinstance(body_[0][1], SeqV) else None
+        el_ = byte_view(I, body_[0][1]) if len(body_) == 1 and body_[0][0] == 'elem' else None     # (a private newtype of the 4 bytes is its bytes)
+        es_ = el_.segs if isinstance(el_, SeqV) and not el_.stores else None
         ok = es_ is not None and len(es_) == 1 and es_[0][0] == 'raw' and es_[0][1] == ('a', var) and equal(es_[0][2], ('len', ('a', var)), gfacts)[0]
         # the parts are split(name, '.', start) with start = 1 exactly when the string is rooted
         sp_ = src[1] if src[0] == 'len' else None
